@@ -22,7 +22,7 @@ def projects(tier, seed):
     ps.append(fault.small_project(rnd, nfiles=1, stmts=(1, 1), big=70000, label="b64k"))
     if tier == "thorough":
         ps.append(fault.small_project(rnd, nfiles=1, stmts=(1, 2), big=1200000, label="b1m"))
-        for j in range(6):
+        for j in range(24):
             ps.append(fault.small_project(rnd, nfiles=rnd.choice([1, 2, 4, 6]), stmts=(0, 8), structured=rnd.random() < 0.5,
                                           lock=rnd.choice([None, core.lock_text(500)]), use_cache=rnd.choice([None, None, False]),
                                           label="r%d" % j))
